@@ -138,3 +138,23 @@ Example before_the_repair_F6 :
   /\ map o_res (outputs w_cfg [IRun (ABoot (Some 1)); ITamper 2%nat; IStop (Some 3%nat); IRun (ABoot (Some 5))])
     = [OBootOk; OTampered; OStopped; OBootOk].
 Proof. vm_compute. repeat split. Qed.
+
+(* REFINEMENT FROM TRANSLATED CODE.  The step the histories above are made of, [step], is what
+   Manager.publishBlockInternal does — the Go function itself, translated from /repo's source on every run
+   (coq/gen/GoLiteFuns.v, with Manager.retrieveBatch and Manager.updateState inside it) and evaluated by
+   Model/GoLite.v against scripted collaborators (Check/GoLitePublish.v: [go_publishBlockInternal], for ALL worlds).
+   For EVERY input of [step] — configuration, durable image, volatile state, answer of the sequencing layer, answer
+   of the executor — the translated code performs the store writes of [step]: the same kinds (cursor, early block
+   with the empty signature, final block with the new signature, state, height), the same heights and cursor, in
+   the same order; it returns nil exactly when the model's outcome is committed / skipped; the in-memory cursor ends
+   where the model's does.  So the write sequence the crash points [ICrash _ k] cut is the write sequence of the
+   code as it is now. *)
+From Verif Require Proofs.GoLitePublishRefine.
+Theorem C04_translated_publish_refines_step_full : forall c m v s e,
+  exists o, Check.GoLitePublish.run_publish (GoLitePublishRefine.world_of c m v s e) = Some o /\
+            GoLitePublishRefine.code_writes o = GoLitePublishRefine.model_writes (step c m v s e) /\
+            GoLitePublishRefine.nil_result o = GoLitePublishRefine.ok_outcome (a_out (step c m v s e)) /\
+            Check.GoLitePublish.o_cursor o =
+              Some (Check.GoLitePublish.KCursor (GoLitePublishRefine.cursor_of (step c m v s e) v)).
+Proof. exact GoLitePublishRefine.translated_publish_refines_step. Qed.
+Print Assumptions C04_translated_publish_refines_step_full.
